@@ -577,6 +577,7 @@ func buildTargets() []*target {
 	}, p8sm9, p8sm9m, p8sm9e, p8sm9em, p8, p8rsa)
 
 	// ------------------------------------------------------------ pkcs7
+	var layerEnvs [][]byte
 	content := []byte("pkcs7 content data 0123456789")
 	sd := must(pkcs7.NewSMSignedData(content))
 	if err := sd.AddSigner(leaf, priv, pkcs7.SignerInfoConfig{}); err != nil {
@@ -626,6 +627,10 @@ func buildTargets() []*target {
 		env1 := must(pkcs7.EncryptSM(c.c, content, []*smx509.Certificate{leaf}))
 		env2 := must(pkcs7.Encrypt(c.c, content, []*smx509.Certificate{rsaCert}))
 		envC := must(pkcs7.EncryptCFCA(c.c, content, []*smx509.Certificate{leaf}))
+		if c.n == "sm4cbc" || c.n == "sm4gcm" || c.n == "aes128cbc" || c.n == "3des" {
+			layerEnvs = append(layerEnvs, env1, env2, envC)
+			envelopeTargets = append(envelopeTargets, "pkcs7.Parse+Decrypt(env,"+c.n+")")
+		}
 		add("pkcs7", "pkcs7.Parse+Decrypt(env,"+c.n+")", func(b []byte) int {
 			p, err := pkcs7.Parse(b)
 			if err == nil {
@@ -698,6 +703,16 @@ func buildTargets() []*target {
 		[]byte("00000000000000010000000000000001000000000000000000000000000000000000000000000268"+strings.Repeat("A", 100)))
 
 	addCipherTargets(add)
+
+	// material for the layered constructions (layered_test.go)
+	lctx = layeredCtx{inner: priv2, priv: priv, tmpKey: tmpKey, rsaKey: rsaKey, hash: hash, p8: p8, env: env, rsp: rsp, blob: blob,
+		sm9pub: emk.PublicKey(), sm9uid: uidA}
+	for _, e := range encs {
+		lctx.encs = append(lctx.encs, namedEnc{e.name, e.enc})
+	}
+	lctx.envelopes = append(lctx.envelopes, saedDer, ce, cel)
+	lctx.envelopes = append(lctx.envelopes, layerEnvs...)
+	envelopeTargets = append(envelopeTargets, "pkcs7.Parse+DecryptAndVerify", "cfca.OpenEnvelopedMessage")
 
 	// ------------------------------------------------------------ padding
 	for _, bs := range []uint{1, 3, 8, 16, 32} {
